@@ -1728,17 +1728,10 @@ fn run_project_spec(cx: &mut Ctx, p: &ProjSpec, label: &str, dup: Option<(u8, bo
             }
         }
     }
-    // With an exact root size the unchanged reader is correct as long as no REGULAR-sector stream is fetched after
-    // the partial last mini sector has been read; otherwise it returns wrong bytes (known finding, see
-    // findings/C18.json): those containers carry their own signature
-    let label_owned;
-    let label: &str = if opts.unpadded_root && streams.iter().any(|(_, d)| d.len() >= 4096) {
+    if opts.unpadded_root && streams.iter().any(|(_, d)| d.len() >= 4096) {
+        // regular-sector streams fetched after the partial last mini sector: read wrongly before /repo 3eeaae6
         cx.rep.count("project:cfb-root-entry-with-exact-mini-stream-length:and-a-regular-sector-stream");
-        label_owned = format!("{label}:exact-root-size+regular-stream");
-        &label_owned
-    } else {
-        label
-    };
+    }
     if rng.chance(1, 3) {
         // over-allocated chains: spare (mini) sectors behind every stream (seeded change C18-m18)
         opts.spare_sectors = rng.range(1, 3) as usize;
